@@ -583,8 +583,16 @@ func c01Worker(c *vx.Ctx) {
 	}
 	prefix := ps.blocks
 	ps.close()
-	pairs := c10Branches(2)
-	p.Bound("mempool_ops", c10Ops)
+	// mempool alphabet: the block contents of C10 plus a transaction naming one outpoint twice
+	nOps := len(c10Ops) + 1
+	var pairs [][]int
+	for a := 0; a < nOps; a++ {
+		pairs = append(pairs, []int{a})
+		for b := 0; b < nOps; b++ {
+			pairs = append(pairs, []int{a, b})
+		}
+	}
+	p.Bound("mempool_ops", append(append([]string{}, c10Ops...), "S6twice(same outpoint twice, MuSig2 of the owner key twice)"))
 	for i, ops := range pairs {
 		if !c.Mine(int64(i)) {
 			continue
@@ -604,15 +612,49 @@ func c01Worker(c *vx.Ctx) {
 		if key != "" {
 			ops := ops
 			if c.Confirm(desc, func() string { k, _, _ := c01WorkerCase(prefix, ops); return k }) {
-				c.Violate("worker", key, desc, map[string]any{"mempool": c10Names(ops)})
+				c.Violate("worker", key, desc, map[string]any{"mempool": c01Names2(ops)})
 			}
 		} else if i%7 == 0 {
-			p.Sample(map[string]any{"mempool": c10Names(ops), "result": cls})
+			p.Sample(map[string]any{"mempool": c01Names2(ops), "result": cls})
 		}
 	}
 	if c.Shard == 0 {
 		p.States = int64(len(pairs))
 	}
+}
+
+// c01OfferTwice offers the pool a transaction whose two inputs are the same outpoint (value counted
+// twice), authorised by the MuSig2 aggregate of the owner's key taken twice.
+func c01OfferTwice(s *scen) bool {
+	utxos, _ := core.VScanUtxos(s.n.DB[2])
+	for _, u := range utxos {
+		if string(u.Entry.Address) != string(s.q[0].Addr.Bytes()) || u.Entry.Denomination != 6 {
+			continue
+		}
+		in := core.VQiIn{Hash: u.Hash, Index: u.Index, Key: s.q[0]}
+		var tx *types.Transaction
+		if perr := vx.Guard(func() {
+			tx = core.VQiTxMulti(s.n.ChainID(), core.VZoneLoc, []core.VQiIn{in, in},
+				[]core.VQiOut{{Denom: 6, Addr: s.q[1].Addr}, {Denom: 5, Addr: s.q[2].Addr}}, nil, []*core.VKey{s.q[0], s.q[0]})
+		}); perr != "" || tx == nil {
+			return false
+		}
+		errs := s.n.AddTxs(tx)
+		return errs[0] == nil
+	}
+	return false
+}
+
+func c01Names2(ops []int) []string {
+	var n []string
+	for _, o := range ops {
+		if o == len(c10Ops) {
+			n = append(n, "S6twice")
+		} else {
+			n = append(n, c10Ops[o])
+		}
+	}
+	return n
 }
 
 func c01WorkerCase(prefix []*types.WorkObject, ops []int) (string, string, string) {
@@ -623,6 +665,12 @@ func c01WorkerCase(prefix []*types.WorkObject, ops []int) (string, string, strin
 	defer s.close()
 	admitted := 0
 	for _, op := range ops {
+		if op == len(c10Ops) {
+			if c01OfferTwice(s) {
+				admitted++
+			}
+			continue
+		}
 		if ok, _ := c10ApplyOp(s, op); ok && c10Ops[op] != "empty" {
 			admitted++
 		}
@@ -641,20 +689,20 @@ func c01WorkerCase(prefix []*types.WorkObject, ops []int) (string, string, strin
 		for _, in := range tx.TxIn() {
 			k := opKey(in.PreviousOutPoint.TxHash, in.PreviousOutPoint.Index)
 			if seen[k] {
-				return "worker:outpoint-twice-in-own-block", fmt.Sprintf("mempool %v: the worker's block names outpoint %s twice", c10Names(ops), k[:16]), ""
+				return "worker:outpoint-twice-in-own-block", fmt.Sprintf("mempool %v: the worker's block names outpoint %s twice", c01Names2(ops), k[:16]), ""
 			}
 			seen[k] = true
 		}
 	}
 	cls := fmt.Sprintf("admitted=%d,qi-in-block=%d", admitted, qi)
 	if r := s.n.Append(blk); r.Err() != nil {
-		return "worker:own-block-rejected", fmt.Sprintf("mempool %v: the node rejects the block its worker assembled: %v", c10Names(ops), r.Err()), cls
+		return "worker:own-block-rejected", fmt.Sprintf("mempool %v: the node rejects the block its worker assembled: %v", c01Names2(ops), r.Err()), cls
 	}
 	if err := s.n.VCheckCommitments(blk); err != nil {
 		if len(s.n.VSpentAndTrimmed(blk)) > 0 {
 			return "", "", cls + ",C06-known-spend-at-trim-height" // reported by C06
 		}
-		return "worker:commitment:" + strings.SplitN(err.Error(), ":", 2)[0], fmt.Sprintf("mempool %v: %v", c10Names(ops), err), cls
+		return "worker:commitment:" + strings.SplitN(err.Error(), ":", 2)[0], fmt.Sprintf("mempool %v: %v", c01Names2(ops), err), cls
 	}
 	return "", "", cls
 }
